@@ -17,6 +17,8 @@
 #include "common/msggen.h"
 #include "common/netkit.h"
 
+#include <pistache/verif_hooks.h>
+
 #include <atomic>
 #include <mutex>
 #include <thread>
@@ -27,6 +29,65 @@ using namespace Pistache;
 namespace
 {
     std::string g_prop = "C01";
+
+    // ---- what the transport did on its sockets (through the send/recv hooks): a ring of the last calls, written out when
+    // a connection stays silent, so that "no answer" can be told apart: never read / read but not answered / answered
+    // into the void
+    struct Trace
+    {
+        std::mutex m;
+        std::vector<std::string> ring;
+        size_t next = 0;
+        void add(const char* op, int fd, const void* buf, size_t len, ssize_t res, int err)
+        {
+            char head[96];
+            snprintf(head, sizeof head, "[%.4f t%lu] %s(fd %d, %zu) = %zd%s ", net::now_s(), (unsigned long)(std::hash<std::thread::id>()(std::this_thread::get_id()) % 1000), op, fd, len, res,
+                     res < 0 ? (err == EAGAIN ? " EAGAIN" : " error") : "");
+            std::string line = head;
+            if (res > 0)
+                line += printable(std::string(static_cast<const char*>(buf), size_t(std::min<ssize_t>(res, 48))), 96);
+            std::lock_guard<std::mutex> g(m);
+            if (ring.size() < 600)
+                ring.push_back(line);
+            else
+                ring[next++ % 600] = line;
+        }
+        std::string dump(const std::string& needle)
+        {
+            std::lock_guard<std::mutex> g(m);
+            std::string out;
+            size_t n = ring.size();
+            // the descriptor that received the needle, then every call on that descriptor from there on
+            int fd = -1;
+            std::vector<std::string> ordered;
+            for (size_t i = 0; i < n; ++i)
+                ordered.push_back(ring[(next + i) % n]);
+            for (auto& l : ordered)
+            {
+                if (fd < 0 && l.find(needle) != std::string::npos)
+                    sscanf(l.c_str() + l.find("(fd ") + 4, "%d", &fd);
+                if (fd >= 0 && l.find("(fd " + std::to_string(fd) + ",") != std::string::npos)
+                    out += "\n    " + l;
+            }
+            return out.empty() ? std::string(" (no call on a server-side socket carries these bytes)") : out;
+        }
+    } g_trace;
+    ssize_t trace_send(int fd, const void* buf, size_t len, int flags)
+    {
+        ssize_t r = ::send(fd, buf, len, flags);
+        int e     = errno;
+        g_trace.add("send", fd, buf, len, r, e);
+        errno = e;
+        return r;
+    }
+    ssize_t trace_recv(int fd, void* buf, size_t len, int flags)
+    {
+        ssize_t r = ::recv(fd, buf, len, flags);
+        int e     = errno;
+        g_trace.add("recv", fd, buf, len, r, e);
+        errno = e;
+        return r;
+    }
 
     std::string hash_of(const Http::Request& r)
     {
@@ -199,6 +260,8 @@ namespace verif
     {
         if (const char* p = getenv("VERIF_PROP"))
             g_prop = p;
+        VerifHooks::sendFn.store(trace_send);
+        VerifHooks::recvFn.store(trace_recv);
     }
 
     Verdict run_case(const uint8_t* data, size_t size, Report& rep)
@@ -447,6 +510,7 @@ namespace verif
                     net::send_all(fd, "\r\n");
                     poked = net::read_message(fd, carry, true, later, 2000, e3);
                 }
+                err += " server-side calls on this connection:" + g_trace.dump(printable(m.wire.substr(0, std::min<size_t>(m.wire.size(), 12)), 40)) + "\n   ";
                 err += late ? " [an answer with status " + std::to_string(later.status) + " did arrive within 3 more seconds]"
                     : poked ? " [nothing in 3 more seconds; an answer with status " + std::to_string(later.status) + " arrived after two more bytes were written to the connection]"
                             : " [nothing in 3 more seconds, nothing after two more bytes either: " + e3 + "]";
